@@ -74,9 +74,44 @@ def check_input(inputs, cmps, registry, dict_fields=()):
     return None
 
 
+def registry_history_cases(rng):
+    """a string-type registry that is USED (a generation that simplifies unions), then CHANGED (date/time types registered,
+    a type removed or added), then used again: simplification must see the registry as it is now"""
+    from json_to_models.dynamic_typing import register_datetime_classes
+    from json_to_models.generator import MetadataGenerator
+    warm = [{"a": 1, "b": "1"}, {"a": 1.5, "b": "x"}, {"a": None, "b": "true"}]
+    for change in ("datetime", "remove-int", "add-bool", "remove-float-add-datetime"):
+        kinds = ("IntString", "FloatString") if change == "add-bool" else ("IntString", "FloatString", "BooleanString")
+        reg = stages.make_registry(kinds)
+        MetadataGenerator(reg).generate(*warm)                       # first use
+        if "datetime" in change:
+            register_datetime_classes(reg)
+        if change == "remove-int":
+            reg.remove_by_name("IntString")
+        if change == "remove-float-add-datetime":
+            reg.remove_by_name("FloatString")
+        if change == "add-bool":
+            from json_to_models.dynamic_typing import BooleanString
+            reg.add(cls=BooleanString)
+        samples = [{"when": "2020-01-02", "n": "1", "f": "1.5", "flag": "true", "mix": "2020-01-02T03:04:05"},
+                   {"when": "free text, long enough to be plain str", "n": "not a number, and a long one", "f": "y" * 25,
+                    "flag": "maybe " * 5, "mix": "12:30"},
+                   {"when": rng.choice(["2021-03-04", None]), "n": "2", "f": "2", "flag": "false", "mix": "z"}]
+        yield change, reg, [("Root", samples)]
+
+
 def falsify(ctx):
     rng = ctx.rng("fals")
     registry = stages.make_registry()
+    for change, reg, inputs in registry_history_cases(rng):
+        try:
+            hit = check_input(inputs, [], reg)
+        except Exception as e:  # noqa
+            hit = {"kind": "pipeline-raises", "input": inputs, "observed": f"{type(e).__name__}: {e}"}
+        ctx.case(("registry-history", change), nontrivial=True)
+        if hit:
+            hit["registry_history"] = change
+            yield hit
     focus = common.focus_cases(ctx)
     n = ctx.n(250, 6000)
     for i in range(len(focus) + n):
@@ -103,6 +138,13 @@ def falsify(ctx):
 
 
 def replay(ctx, hit):
+    if hit.get("registry_history"):
+        for change, reg, inputs in registry_history_cases(ctx.rng("replay")):
+            if change == hit["registry_history"]:
+                try:
+                    return check_input(inputs, [], reg)
+                except Exception as e:  # noqa
+                    return {"kind": "pipeline-raises", "observed": f"{type(e).__name__}: {e}"}
     from json_to_models.registry import ModelFieldsEquals, ModelFieldsNumberMatch, ModelFieldsPercentMatch
     cmps = []
     for c in hit.get("cmps", [["percent", 7, 10], ["number", 10]]):
